@@ -165,3 +165,40 @@ func (vt *VerifTable) Scan(asc bool, seek []byte, prefetch int) (out []VerifEntr
 	}
 	return out, nil
 }
+
+// VerifIter is one long-lived table iterator (as merge / level iterators hold them): it can be
+// re-positioned any number of times. Every operation returns the entry the iterator points at
+// afterwards (nil when it is not valid); a panic is returned as an error.
+type VerifIter struct {
+	it utils.Iterator
+}
+
+func (vt *VerifTable) NewIter(asc bool, prefetch int) *VerifIter {
+	return &VerifIter{it: vt.t.NewIterator(&utils.Options{IsAsc: asc, PrefetchBlocks: prefetch})}
+}
+
+func (vi *VerifIter) cur() *VerifEntry {
+	if !vi.it.Valid() {
+		return nil
+	}
+	item := vi.it.Item()
+	if item == nil || item.Entry() == nil {
+		return nil
+	}
+	return copyEntry(item.Entry())
+}
+
+func (vi *VerifIter) do(f func()) (out *VerifEntry, err error) {
+	defer func() {
+		if r := recover(); r != nil {
+			out, err = nil, fmt.Errorf("panic: %v", r)
+		}
+	}()
+	f()
+	return vi.cur(), nil
+}
+
+func (vi *VerifIter) Rewind() (*VerifEntry, error)         { return vi.do(vi.it.Rewind) }
+func (vi *VerifIter) Next() (*VerifEntry, error)           { return vi.do(vi.it.Next) }
+func (vi *VerifIter) Seek(key []byte) (*VerifEntry, error) { return vi.do(func() { vi.it.Seek(key) }) }
+func (vi *VerifIter) Close()                               { _ = vi.it.Close() }
